@@ -526,7 +526,7 @@ def main():
             tot["oblig_unknown"][k] = tot["oblig_unknown"].get(k, 0) + v
         tot["opaque_calls"] |= set(p["opaque_calls"]); tot["interpreted"] |= set(p["interpreted"])
     tot["opaque_calls"] = sorted(tot["opaque_calls"]); tot["interpreted"] = sorted(tot["interpreted"])
-    tot["exponents"] = [a.emin, a.emax]
+    tot["exponents"] = {"count": len(exps), "min": min(exps), "max": max(exps), "list": exps if len(exps) <= 120 else "every integer in the range"}
     tot["wall_s"] = round(time.time() - t0, 1)
     tot["solver"] = subprocess.run([Z3, "--version"], capture_output=True, text=True).stdout.strip()
     json.dump(tot, open(a.out, "w"), indent=1, default=str)
